@@ -3,6 +3,11 @@
 import json, subprocess, sys
 
 claimed = {
+ "C10": dict(
+   text="Deductive proof of CommonScale for all inputs: the chosen scale is the one that the prefix table assigns (first threshold reached, 1/2/3 decimals; below the smallest prefix 3+i decimals) to the smallest non-zero magnitude of the values, and the `not reachable` panic is unreachable — floating-point comparisons and the division modelled exactly (SMT FloatingPoint).  The ulp-level claims (mantissa times factor within half a unit of the last digit, four significant digits, boundaries coinciding with rounding such as 999.95 -> 1.000k), the unit class and the no-op scale rest on float division and strconv formatting, which are not modelled: covered by a bounded stand-in at +-40 (thorough 400) ulps around every threshold with exact decimal arithmetic on the printed text.",
+   note="Trusted: the threshold tables have the lengths computed at initialisation (lib/globals.spec); math.Abs; strconv.AppendFloat is correctly rounded.  ClassOf / the unit tokeniser are bounded only.",
+   technique="contract-based deductive verification (own VC generator over go/ssa; floats as SMT FloatingPoint; z3/cvc5) + bounded stand-in for the rounding claims",
+   design="5/C10"),
  "C11": dict(
    text="Deductively proved so far: labeledMerge (the pooled sample is sorted, NaN-free, labelled 1/2; safety and termination of its three loops).  The decisive parts — the rank-sum loop, the selection of the tail for each alternative, UDist.p (dynamic programming) and makeUmemo (memoised counting recurrence with its K=2 base case), whose correctness is a combinatorial theorem — are outside deductive reach in this build and are covered by a bounded stand-in: exhaustive comparison with brute-force enumeration of label assignments for every pair of multisets over 4 values with n1+n2 <= 8 (thorough: 10), PMF/CDF consistency, mathChoose against big integers for n <= 62, the normal approximation evaluated independently, error cases.  It exposed two defects that were repaired (K=2 base case; 'greater' tail with ties) and one recorded as a known finding (two-sided p with ties, pinned by an existing test).",
    note="Mostly bounded evidence; the proof obligations concern the merge step only.  The symmetry of the untied null distribution is a textbook fact used implicitly by the code.",
